@@ -1,4 +1,5 @@
 import Rq.Model.Codec
+import Rq.Model.Oracle
 import Rq.Model.PiSolver
 /-!
 The code-shaped solver instance: the modelled five-phase solver (`PiSolver.lean`) produces the
@@ -31,5 +32,65 @@ def piSolver (sparse : Bool) : Solver where
       match replayOps ops d sp.l with
       | some c => .solved c
       | none => .oracleError
+
+end Rq
+
+namespace Rq
+
+/-- row r of a system as a symbol of `l` bytes (its coefficient vector) -/
+def System.rowSyms (a : System) : List Sym :=
+  let binRows := a.bin.toList.map fun cols => (List.range a.l).map fun j => if cols.contains j then 1 else 0
+  binRows.take a.nLdpc ++ a.hdpc.toList.map (fun r => (List.range a.l).map fun j => r.getD j 0) ++ binRows.drop a.nLdpc
+
+/-- the identity: L symbols of L bytes -/
+def identInter (l : Nat) : Inter := Array.ofFn (n := l) fun i => (List.range l).map fun j => if j = i.val then 1 else 0
+
+/-- **Certificate of one solver run**: replaying the recorded operations on the coefficient matrix
+itself (row r as a symbol of L bytes) yields the identity — i.e. the operations realise a left
+inverse of A. One replay at symbol size L; decides soundness of the run for *all* right-hand sides
+and that A is determined (theorem `cert_sound`). -/
+def certOk (a : System) (ops : List SymOp) : Bool :=
+  ops.all (fun op => match op with | .mul _ c => decide (c < 256) | .fma _ _ c => decide (c < 256) | _ => true) &&
+  match replayOps ops a.rowSyms a.l with
+  | some c => c == identInter a.l
+  | none => false
+
+/-- the modelled five-phase solver with every answer certified: `solved` only with a valid
+certificate; when it gives up, the verified Gauss–Jordan oracle must confirm that the system is
+singular. `oracleError` = the crate's solver (as modelled) failed its certificate or gave up on a
+determined system — never observed; it would be reported by the correspondence run. -/
+def piSolverChecked (sparse : Bool) : Solver where
+  full sp isis d :=
+    match fullSystem' sp isis with
+    | none => .oracleError
+    | some a =>
+      match (if sparse then piSolveSparse sp isis else piSolveDense sp isis) with
+      | some ops =>
+        if certOk a ops then
+          match replayOps ops d sp.l with
+          | some c => .solved c
+          | none => .oracleError
+        else .oracleError
+      | none =>
+        match solveSystem a d (symLen d) with
+        | .singular => .singular
+        | _ => .oracleError
+  noHdpc sp isis d :=
+    match binSystem' sp isis with
+    | none => .oracleError
+    | some a =>
+      match (if sparse then piSolveSparseNoHdpc sp isis else piSolveDenseNoHdpc sp isis) with
+      | some ops =>
+        if certOk a ops then
+          match replayOps ops d sp.l with
+          | some c => .solved c
+          | none => .oracleError
+        else .oracleError
+      | none => .singular   -- the fast path may give up freely
+where
+  fullSystem' (sp : SysParams) (isis : List Nat) : Option System :=
+    (constraintMatrix sp isis).map fun (bin, hd) => { l := sp.l, bin, nLdpc := sp.s, hdpc := hd }
+  binSystem' (sp : SysParams) (isis : List Nat) : Option System :=
+    (constraintMatrixNoHdpc sp isis).map fun bin => { l := sp.l, bin, nLdpc := sp.s, hdpc := #[] }
 
 end Rq
